@@ -85,22 +85,29 @@ class RotaryProcessHeads(eqx.Module):
         return rotated_query, rotated_key, value_heads
 
 
+def _rope_tables(
+    theta: float, embedding_size: int, seq_length: int, work_dtype: Any
+) -> tuple[np.ndarray, np.ndarray]:
+    """cos/sin tables computed in ``work_dtype`` (float64 for float64 activations)."""
+    work = np.dtype(work_dtype).type
+    base: np.ndarray = np.arange(0.0, embedding_size, 2, dtype=work)
+    freq_exponent = base / work(embedding_size)
+    freqs = work(1.0) / np.power(work(theta), freq_exponent).astype(work)
+    positions: np.ndarray = np.arange(float(seq_length), dtype=work)
+    freqs_outer = (positions[:, None] * freqs[None, :]).astype(work)
+    return np.cos(freqs_outer), np.sin(freqs_outer)
+
+
 def compute_rope_caches(
     rope: eqx.nn.RotaryPositionalEmbedding, seq_length: int
 ) -> tuple[np.ndarray, np.ndarray]:
-    theta = np.float32(rope.theta)
-    embedding_size = int(rope.embedding_size)
-    base: np.ndarray = np.arange(0.0, embedding_size, 2, dtype=np.float32)
-    freq_exponent = base / np.float32(embedding_size)
-    freqs = np.power(theta, freq_exponent).astype(np.float32)
-    freqs = np.float32(1.0) / freqs
-    positions: np.ndarray = np.arange(float(seq_length), dtype=np.float32)
-    freqs_outer = (positions[:, None] * freqs[None, :]).astype(np.float32)
     rope_dtype = np.dtype(jnp.dtype(rope.dtype))
-    cos = np.cos(freqs_outer).astype(rope_dtype)
-    sin = np.sin(freqs_outer).astype(rope_dtype)
-    cos = np.tile(cos, (1, 2)).astype(rope_dtype)
-    sin = np.tile(sin, (1, 2)).astype(rope_dtype)
+    work_dtype = np.float64 if rope_dtype == np.dtype(np.float64) else np.float32
+    cos, sin = _rope_tables(
+        float(rope.theta), int(rope.embedding_size), seq_length, work_dtype
+    )
+    cos = np.tile(cos.astype(rope_dtype), (1, 2)).astype(rope_dtype)
+    sin = np.tile(sin.astype(rope_dtype), (1, 2)).astype(rope_dtype)
     return cos, sin
 
 
@@ -528,20 +535,21 @@ class RotaryPositionalEmbeddingPlugin(PrimitiveLeafPlugin):
                     "RotaryPositionalEmbedding requires a static sequence length.",
                 )
                 rope_dtype = np.dtype(jnp.dtype(self.dtype))
-                theta = np.float32(self.theta)
-                emb_size = np.float32(self.embedding_size)
-                base: np.ndarray = np.arange(
-                    0.0, self.embedding_size, 2, dtype=np.float32
+                # Tables are host constants: compute them in double when the
+                # activations are float64 (as equinox does under x64), otherwise the
+                # double-precision export carries float32-accurate sines and cosines.
+                x_np_dtype = np.dtype(x.dtype)
+                work_dtype = (
+                    np.float64
+                    if x_np_dtype == np.dtype(np.float64)
+                    and rope_dtype == np.dtype(np.float64)
+                    else np.float32
                 )
-                freq_exponent = base / emb_size
-                freqs = np.power(theta, freq_exponent).astype(np.float32)
-                freqs = np.float32(1.0) / freqs
-                positions: np.ndarray = np.arange(float(seq_len), dtype=np.float32)
-                freqs_outer = (positions[:, None] * freqs[None, :]).astype(np.float32)
-                cos = np.cos(freqs_outer).astype(rope_dtype)
-                sin = np.sin(freqs_outer).astype(rope_dtype)
-                cos = np.tile(cos, (1, 2)).astype(np.dtype(x.dtype))
-                sin = np.tile(sin, (1, 2)).astype(np.dtype(x.dtype))
+                cos, sin = _rope_tables(
+                    float(self.theta), int(self.embedding_size), seq_len, work_dtype
+                )
+                cos = np.tile(cos.astype(rope_dtype), (1, 2)).astype(x_np_dtype)
+                sin = np.tile(sin.astype(rope_dtype), (1, 2)).astype(x_np_dtype)
                 cos = jnp.asarray(cos)
                 sin = jnp.asarray(sin)
                 return cls._PRIM.bind(
